@@ -219,6 +219,31 @@ def nontrivial(c, r):
 KINDS = ["item", "assoc_item", "foreign_item", "stmt", "field", "variant", "arm", "expr_field"]
 
 
+INNER_SPELLINGS = ["#![rustfmt::skip]", "#![cfg_attr(any(), rustfmt::skip)]", "#![rustfmt_skip]"]
+INNER_HEAD = re.compile(r"^(pub(\([a-z: ]+\))?\s+)?((unsafe|const|async|default)\s+)*(fn|mod|impl|trait)\b")
+
+
+def body_open(snippet):
+    """offset of the brace that opens the item's body: the first `{` outside <...>, (...) and [...]"""
+    angle = paren = 0
+    prev = ""
+    for i, ch in enumerate(snippet):
+        if ch == "<":
+            angle += 1
+        elif ch == ">" and prev != "-" and prev != "=":
+            angle = max(0, angle - 1)
+        elif ch in "([":
+            paren += 1
+        elif ch in ")]":
+            paren -= 1
+        elif ch == "{":
+            if angle == 0 and paren == 0:
+                return i
+            return -1            # a brace inside generics / arguments (const expression): not handled
+        prev = ch
+    return -1
+
+
 def norm_nl(s):
     return s.replace("\r\n", "\n")
 
@@ -258,6 +283,26 @@ def e2e(rep, tier, seed):
             for w in ("100", "40"):
                 cases.append({"text": text, "config": pool.merged(p["header"], [["max_width", w]]), "again": False, "lex": False})
                 meta.append((p["id"], kind, sp, w, snippet))
+        # the INNER form: `#![rustfmt::skip]` as the first thing inside the braces of a fn / mod / impl / trait
+        inner_done = 0
+        for kind in ("item", "assoc_item"):
+            for (lo, hi) in by_kind.get(kind, []):
+                if inner_done >= 3:
+                    break
+                snippet = b[lo:hi].decode("utf-8", "replace")
+                m = INNER_HEAD.match(snippet)
+                k = body_open(snippet)
+                if not m or k < 0 or not snippet.rstrip().endswith("}") or "\n" not in snippet:
+                    continue
+                if any(ch in snippet[:k] for ch in "\"'") or "where" in snippet[:k] and "{" in snippet[:k]:
+                    continue
+                isp = INNER_SPELLINGS[(inner_done + len(p["id"])) % len(INNER_SPELLINGS)]
+                marked = snippet[:k + 1] + " " + isp + snippet[k + 1:]
+                text = (b[:lo] + marked.encode() + b[hi:]).decode("utf-8", "replace")
+                inner_done += 1
+                for w in ("100", "40"):
+                    cases.append({"text": text, "config": pool.merged(p["header"], [["max_width", w]]), "again": False, "lex": False})
+                    meta.append((p["id"], kind + "_inner", isp, w, marked))
     res = common.run_vh_pool("pool", cases, per_case_timeout=15)
     n = found = 0
     per_kind = {}
